@@ -75,7 +75,7 @@ CHECKS = {
         'limit (resource exhaustion counts as raising).',
    design='5/C10'),
  'C17': dict(
-   technique='Coq proof for an arbitrary surface function s (x, y untouched; z\' = k (z + s(x,y)); flat surface = plain transform) + value-level differential with scipy\'s interpolant as oracle, sample reproduction and smoothness checks',
+   technique='Coq proof for an arbitrary surface function s (x, y untouched; z\' = k (z + s(x,y)); flat surface = plain transform) + value-level differential with scipy\'s interpolant as oracle, sample reproduction and smoothness checks + source translator (transform_points with compensate translated and proved to be tr_warp_gen - the surface height added to z before the rigid map, x and y untouched: coq/tie/EquivTp.v)',
    text='Props/C17.v: for every interpolant s, configuration and point the compensated map leaves x\' and y\' exactly those of the plain '
         'transformation and gives z\' = k (z + s(x,y)); s = 0 is the plain transformation. Tie to /repo: POS.txt files (regular '
         'grids 3x3..15x15, 9..200 scattered samples of non-planar surfaces) in fresh directories; transform_points with and '
@@ -86,7 +86,7 @@ CHECKS = {
         'float32 addition of the correction modelled exactly (rnd32).',
    design='5/C17'),
  'C02': dict(
-   technique='Coq proof over Q (ring identities: order of the maps, isometry, z scaling, orientation, origin, identity) and over R (degree periodicity) + value-level differential at every call site',
+   technique='Coq proof over Q (ring identities: order of the maps, isometry, z scaling, orientation, origin, identity) and over R (degree periodicity) + value-level differential at every call site + source translator (transform_points / flip / t_matrix / compensate translated over vectors and matrices and proved, point by point and for any float32 rounding, to be tr_gen: coq/tie/EquivTp.v)',
    text='Props/C02.v: the modelled map is rotate . flip . translate with z scaled by k; xy distances scale by c^2+s^2 (isometry for a '
         'rotation), z differences by k, orientation flips exactly with one flip, the origin maps to (0,0), neutral settings give '
         'the identity; cos/sin of degrees are invariant under whole turns of any sign (Reals). Tie to /repo: transform_points on '
